@@ -197,7 +197,7 @@ func (ps *sparser) expectOp(s string) {
 
 // expr := quant | cond
 func (ps *sparser) expr() SExpr {
-	if ps.isId("forall") || ps.isId("exists") {
+	if (ps.isId("forall") || ps.isId("exists")) && ps.toks[ps.p+1].kind == "id" {
 		fa := ps.next().s == "forall"
 		var vars []SVar
 		for {
@@ -270,12 +270,12 @@ func (ps *sparser) binary(minPrec int) SExpr {
 		var rhs SExpr
 		if t.s == "==>" {
 			// right associative; body may be a quantifier
-			if ps.isId("forall") || ps.isId("exists") || ps.isId("let") {
+			if ((ps.isId("forall") || ps.isId("exists")) && ps.toks[ps.p+1].kind == "id") || ps.isId("let") {
 				rhs = ps.expr()
 			} else {
 				rhs = ps.binary(prec)
 			}
-		} else if (t.s == "&&" || t.s == "||") && (ps.isId("forall") || ps.isId("exists")) {
+		} else if (t.s == "&&" || t.s == "||") && (ps.isId("forall") || ps.isId("exists")) && ps.toks[ps.p+1].kind == "id" {
 			rhs = ps.expr()
 		} else {
 			rhs = ps.binary(prec + 1)
